@@ -82,7 +82,7 @@ def run(ctx):
                 for mname in sorted(pkg.media):
                     if ("/" + mname) not in [o[0] for o in pkg.content_types["overrides"]] and rng.random() < 0.6:
                         pkg.content_types["overrides"].append(("/" + mname, rng.choice(["image/svg+xml", "image/x-emf", "image/vnd.ms-photo", "image/x-png"])))
-            if pkg.media and rng.random() < 0.4:
+            if i >= 3 and pkg.media and rng.random() < 0.4:
                 # byte-identical images (a logo used twice) are still separate images
                 # — same bytes AND same declared type, so that nothing but their position tells them apart
                 same = bytes(rng.randrange(256) for _ in range(9))
